@@ -17,8 +17,6 @@ import (
 	"github.com/bluenviron/gortsplib/v5/pkg/description"
 	"github.com/bluenviron/gortsplib/v5/pkg/format"
 	"github.com/bluenviron/gortsplib/v5/pkg/liberrors"
-
-	"verifharness/corr"
 )
 
 // Kernel-level scenarios (property oracle only): a real Server and a real Client over the
@@ -123,7 +121,7 @@ func (k *kserver) OnPacketsLost(*gortsplib.ServerHandlerOnPacketsLostCtx)       
 func (k *kserver) OnStreamWriteError(*gortsplib.ServerHandlerOnStreamWriteErrorCtx) {}
 
 // startKServer binds a server on random loopback ports (retries: other harnesses run concurrently).
-func startKServer(c *corr.Ctx, wild bool, readTimeout, idleTimeout, checkPeriod time.Duration) (*kserver, error) {
+func startKServer(c *rctx, wild bool, readTimeout, idleTimeout, checkPeriod time.Duration) (*kserver, error) {
 	var lastErr error
 	for try := 0; try < 60; try++ {
 		k := &kserver{}
@@ -239,7 +237,7 @@ type attacker struct {
 
 // attackers opens every wrong source the sandbox allows.  samePort is the port of the legitimate
 // sender: binding it on another address gives a datagram with the right port and the wrong address.
-func attackers(c *corr.Ctx, samePort int) []attacker {
+func attackers(c *rctx, samePort int) []attacker {
 	var out []attacker
 	add := func(name, network, laddr string, v6 bool) {
 		a, err := net.ResolveUDPAddr(network, laddr)
@@ -339,7 +337,7 @@ func clientView(kc *kclient) sideView {
 	return sideView{kc.rtp.Load(), kc.rtcp.Load(), st.InboundBytes, st.InboundRTPPackets, st.InboundRTCPPackets, st.InboundRTPPacketsInError, st.InboundRTCPPacketsInError}
 }
 
-func runKernel(c *corr.Ctx, sc *Scenario) {
+func runKernel(c *rctx, sc *Scenario) {
 	cfg := parseKcfg(sc.Cfg)
 	c.Dist("kernel-" + cfg.Mode)
 	var err error
@@ -350,6 +348,8 @@ func runKernel(c *corr.Ctx, sc *Scenario) {
 		err = kernelTimeout(c, sc, cfg)
 	case "steal-udp", "steal-tcp":
 		err = kernelSteal(c, sc, cfg)
+	case "after-end-teardown", "after-end-timeout":
+		err = kernelAfterEnd(c, sc, cfg)
 	default:
 		err = errors.New("unknown mode")
 	}
@@ -387,7 +387,7 @@ func validRTCP(sender bool) []byte {
 
 // kernelTraffic: after PLAY / RECORD, valid packets from every wrong source to every port of both
 // sides; then one packet from the right source as a fence; only the fence may be visible.
-func kernelTraffic(c *corr.Ctx, sc *Scenario, cfg kcfg) error {
+func kernelTraffic(c *rctx, sc *Scenario, cfg kcfg) error {
 	k, err := startKServer(c, cfg.Wild, 10*time.Second, 60*time.Second, 15*time.Millisecond)
 	if err != nil {
 		return err
@@ -555,7 +555,7 @@ func kernelTraffic(c *corr.Ctx, sc *Scenario, cfg kcfg) error {
 }
 
 // foreignVolley sends one valid packet from every wrong source to every UDP port of both sides.
-func foreignVolley(c *corr.Ctx, k *kserver, ls [][2]gortsplib.VerifPeerListenerInfo, cfg kcfg) int {
+func foreignVolley(c *rctx, k *kserver, ls [][2]gortsplib.VerifPeerListenerInfo, cfg kcfg) int {
 	sent := 0
 	type tgt struct {
 		server bool
@@ -600,7 +600,7 @@ func foreignVolley(c *corr.Ctx, k *kserver, ls [][2]gortsplib.VerifPeerListenerI
 // kernelTimeout: the clocks are fake.  The right source speaks at t0; the clock jumps to t0+11
 // (timeouts are 10 s); then either every wrong source or the right one speaks again.  At the next
 // timeout check the session / client must be timed out in the first case and alive in the second.
-func kernelTimeout(c *corr.Ctx, sc *Scenario, cfg kcfg) error {
+func kernelTimeout(c *rctx, sc *Scenario, cfg kcfg) error {
 	legit := cfg.Mode == "timeout-legit"
 	const check = 400 * time.Millisecond
 	k, err := startKServer(c, cfg.Wild, 10*time.Second, 60*time.Second, check)
@@ -748,7 +748,7 @@ func kernelTimeout(c *corr.Ctx, sc *Scenario, cfg kcfg) error {
 
 // kernelSteal: a real Client owns a session (UDP or interleaved TCP); raw TCP connections from the
 // same address and from 127.0.0.2 replay requests with the stolen session id.
-func kernelSteal(c *corr.Ctx, sc *Scenario, cfg kcfg) error {
+func kernelSteal(c *rctx, sc *Scenario, cfg kcfg) error {
 	proto := gortsplib.ProtocolUDP
 	if cfg.Mode == "steal-tcp" {
 		proto = gortsplib.ProtocolTCP
@@ -854,6 +854,132 @@ func kernelSteal(c *corr.Ctx, sc *Scenario, cfg kcfg) error {
 				return nil
 			}
 		}
+	}
+	return nil
+}
+
+// kernelAfterEnd: a real Client streams over UDP, then its session ends (TEARDOWN or timeout) and the
+// client goes away; a socket bound to the SAME ip:port keeps sending valid RTP and RTCP.  Nothing of
+// the ended session may move; a session set up afterwards is not affected either.
+func kernelAfterEnd(c *rctx, sc *Scenario, cfg kcfg) error {
+	k, err := startKServer(c, cfg.Wild, 10*time.Second, 60*time.Second, 50*time.Millisecond)
+	if err != nil {
+		return err
+	}
+	defer k.close()
+	kc, err := startKClient(k, cfg.Record, false, gortsplib.ProtocolUDP, 10*time.Second, 10*time.Second)
+	if err != nil {
+		return err
+	}
+	closed := false
+	defer func() {
+		if !closed {
+			kc.c.Close()
+		}
+	}()
+	s := k.session(0)
+	if s == nil {
+		return errors.New("no session")
+	}
+	ls := gortsplib.VerifPeerClientListeners(kc.c)
+	if len(ls) != 2 {
+		return fmt.Errorf("client has %d UDP media", len(ls))
+	}
+	flow := func(kc *kclient, s *ksess) error {
+		if cfg.Record {
+			b0 := s.rtp.Load()
+			if err := kc.c.WritePacketRTP(kc.desc.Medias[0], &rtp.Packet{Header: rtp.Header{Version: 2, PayloadType: 96, SequenceNumber: nextLegit(0)}, Payload: []byte{5, 1}}); err != nil {
+				return err
+			}
+			if !waitFor(func() bool { return s.rtp.Load() > b0 }, 3*time.Second) {
+				return errors.New("legitimate RTP packet did not reach the server")
+			}
+		}
+		b1 := s.rtcp.Load()
+		var p rtcp.Packet = &rtcp.ReceiverReport{SSRC: 1}
+		if cfg.Record {
+			p = &rtcp.SenderReport{SSRC: 0x11223344, NTPTime: 1 << 40}
+		}
+		if err := kc.c.WritePacketRTCP(kc.desc.Medias[0], p); err != nil {
+			return err
+		}
+		if !waitFor(func() bool { return s.rtcp.Load() > b1 }, 3*time.Second) {
+			return errors.New("legitimate RTCP packet did not reach the server")
+		}
+		return nil
+	}
+	for i := 0; i < 3; i++ {
+		if err := flow(kc, s); err != nil {
+			return err
+		}
+	}
+	// ---- the end ----
+	if cfg.Mode == "after-end-timeout" {
+		k.clock.Add(1000)
+		select {
+		case <-s.closed:
+		case <-time.After(20 * time.Second):
+			return errors.New("session did not time out")
+		}
+	}
+	kc.c.Close() // sends TEARDOWN when the session still exists; releases the client's UDP ports
+	closed = true
+	select {
+	case <-s.closed:
+	case <-time.After(10 * time.Second):
+		return errors.New("session did not end")
+	}
+	view := func(s *ksess) string {
+		return fmt.Sprintf("%v lastPkt=%d", serverView(s), gortsplib.VerifPeerSessionUDPLastPacketTime(s.ss))
+	}
+	ended0 := view(s)
+	// ---- the same source keeps sending ----
+	var socks [2]*net.UDPConn
+	for j := 0; j < 2; j++ {
+		conn, err := net.ListenUDP("udp4", &net.UDPAddr{IP: net.IPv4(127, 0, 0, 1), Port: ls[0][j].LocalPort})
+		if err != nil {
+			return fmt.Errorf("cannot take over the client's port: %w", err)
+		}
+		defer conn.Close()
+		socks[j] = conn
+	}
+	volley := func() {
+		for rep := 0; rep < 3; rep++ {
+			socks[0].WriteToUDP(validRTP(96), &net.UDPAddr{IP: net.IPv4(127, 0, 0, 1), Port: k.rtpPort})
+			socks[1].WriteToUDP(validRTCP(cfg.Record), &net.UDPAddr{IP: net.IPv4(127, 0, 0, 1), Port: k.rtpPort + 1})
+			socks[1].WriteToUDP(validRTP(96), &net.UDPAddr{IP: net.IPv4(127, 0, 0, 1), Port: k.rtpPort})
+			c.Dist("kernel-after-end-sent")
+		}
+		time.Sleep(30 * time.Millisecond)
+	}
+	volley()
+	if v := view(s); v != ended0 {
+		viol(c, sc, "datagrams that arrive after the end of a session do not reach it (callbacks, statistics, timeouts)",
+			"kernel-after-end-delivered", fmt.Sprintf("%s: after the session ended (%v) traffic from its old source changed it: %s -> %s", cfg, s.err, ended0, v))
+	}
+	// ---- somebody sets up afterwards; the old source still sends ----
+	kc2, err := startKClient(k, cfg.Record, false, gortsplib.ProtocolUDP, 10*time.Second, 10*time.Second)
+	if err != nil {
+		return err
+	}
+	defer kc2.c.Close()
+	s2 := k.session(1)
+	if s2 == nil {
+		return errors.New("no second session")
+	}
+	if err := flow(kc2, s2); err != nil {
+		return err
+	}
+	time.Sleep(5 * time.Millisecond)
+	new0 := view(s2)
+	volley()
+	if v := view(s); v != ended0 {
+		viol(c, sc, "datagrams that arrive after the end of a session do not reach it (callbacks, statistics, timeouts)",
+			"kernel-after-end-delivered", fmt.Sprintf("%s: with a new session in place, traffic from the old source changed the ended session: %s -> %s", cfg, ended0, v))
+	}
+	if v := view(s2); v != new0 {
+		viol(c, sc, "datagrams from any other source are ignored", "kernel-after-end-other-session",
+			fmt.Sprintf("%s: traffic from the ended session's source changed the new session: %s -> %s", cfg, new0, v))
 	}
 	return nil
 }
